@@ -197,6 +197,46 @@ theorem compiled_is_source_on_simulator {K : Type} [CommRing K] [DecidableEq K] 
         (toMat (compileGU registers (l.map Applied.cmd)).n (compileGU registers (l.map Applied.cmd)).S)ᵀ :=
   compileGU_source_cov registers l hreg hrows V hxx hpp
 
+/-- **compiled = source, full affine statement.**  Rotations, squeezers, beamsplitters *and displacements*, any
+dagger pattern, any index set: the source gates run through the simulator's specification take `(μ, V)` to
+`(S_net μ + r_net, S_net V S_netᵀ)` with the emitted matrix and displacement vector. -/
+theorem compiled_is_source_on_simulator_affine {K : Type} [CommRing K] [DecidableEq K] (registers : List Nat)
+    (l : List (Applied K)) (hreg : ∀ a ∈ l, ∀ m ∈ a.regs, m ∈ registers)
+    (hok : ∀ a ∈ l, a.hasRows ∨ a.isD = true) (V : XP K)
+    (hxx : ∀ i j, V.xx i j = V.xx j i) (hpp : ∀ i j, V.pp i j = V.pp j i) :
+    covMatrix (compileGU registers (l.map Applied.cmd)).n
+        ((l.map (Applied.gop' fun m => (compileGU registers (l.map Applied.cmd)).regs.idxOf m)).foldl applyXP V) =
+      toMat (compileGU registers (l.map Applied.cmd)).n (compileGU registers (l.map Applied.cmd)).S *
+        covMatrix (compileGU registers (l.map Applied.cmd)).n V *
+        (toMat (compileGU registers (l.map Applied.cmd)).n (compileGU registers (l.map Applied.cmd)).S)ᵀ ∧
+    meanVec (compileGU registers (l.map Applied.cmd)).n
+        ((l.map (Applied.gop' fun m => (compileGU registers (l.map Applied.cmd)).regs.idxOf m)).foldl applyXP V) =
+      toMat (compileGU registers (l.map Applied.cmd)).n (compileGU registers (l.map Applied.cmd)).S *ᵥ
+        meanVec (compileGU registers (l.map Applied.cmd)).n V +
+      toVec (compileGU registers (l.map Applied.cmd)).n (compileGU registers (l.map Applied.cmd)).r :=
+  compileGU_source_aff registers l hreg hok V hxx hpp
+
+/-- **compiled = source on the Gaussian back end's model.**  With C01's refinement (`applyNM_program`): the
+entrywise `nmat / mmat / mean` updates of `GaussianModes`, run on the source gates (atoms with `c² + s² = 1`,
+`ch² − sh² = 1`, distinct beamsplitter modes) from any state satisfying its invariant, produce exactly the state
+the emitted `GaussianTransform` + `Dgate`s describe. -/
+theorem compiled_is_source_on_gaussian_backend {K : Type} [CommRing K] [DecidableEq K] (registers : List Nat)
+    (l : List (Applied K)) (hreg : ∀ a ∈ l, ∀ m ∈ a.regs, m ∈ registers)
+    (hok : ∀ a ∈ l, a.hasRows ∨ a.isD = true)
+    (hatoms : ∀ a ∈ l, (a.gop' fun m => (compileGU registers (l.map Applied.cmd)).regs.idxOf m).ok)
+    (st : GS K) (hI : NMInv st) :
+    covMatrix (compileGU registers (l.map Applied.cmd)).n (toXP
+        ((l.map (Applied.gop' fun m => (compileGU registers (l.map Applied.cmd)).regs.idxOf m)).foldl applyNM st)) =
+      toMat (compileGU registers (l.map Applied.cmd)).n (compileGU registers (l.map Applied.cmd)).S *
+        covMatrix (compileGU registers (l.map Applied.cmd)).n (toXP st) *
+        (toMat (compileGU registers (l.map Applied.cmd)).n (compileGU registers (l.map Applied.cmd)).S)ᵀ ∧
+    meanVec (compileGU registers (l.map Applied.cmd)).n (toXP
+        ((l.map (Applied.gop' fun m => (compileGU registers (l.map Applied.cmd)).regs.idxOf m)).foldl applyNM st)) =
+      toMat (compileGU registers (l.map Applied.cmd)).n (compileGU registers (l.map Applied.cmd)).S *ᵥ
+        meanVec (compileGU registers (l.map Applied.cmd)).n (toXP st) +
+      toVec (compileGU registers (l.map Applied.cmd)).n (compileGU registers (l.map Applied.cmd)).r :=
+  compileGU_source_backend registers l hreg hok hatoms st hI
+
 /-! ### the code before the `fix:` commits -/
 
 /-- the pre-fix accumulation (`used_modes` in hash order `ord`, dagger flags ignored) is right only when the hash
@@ -243,6 +283,30 @@ theorem merge_surgery_order_disp (l ms ds : List Cmd) (g d : Cmd) (out : List Cm
     (a b : Cmd) (hb : Before l a b) (ha : q ∈ a.wires) (hbq : q ∈ b.wires) (ham : a ∈ ms) (hbm : b ∉ ms) :
     out.idxOf d < out.idxOf b :=
   surgery_order_disp l ms ds g d out q hf hd hq hregs hb ha hbq ham hbm
+
+/-- **surgery, cancelling block.**  When the merged commands compose to the identity nothing is emitted and
+`new_DAG` has the edges `surgeryEdgesNil l ms` (staying edges, and every predecessor of a merged command connected
+to every successor of one).  In every list in which these edges point forward, two commands that stay and share a
+wire keep their order — for all circuits and all member sets. -/
+theorem merge_surgery_cancelled_order (l ms out : List Cmd) (hf : forward (surgeryEdgesNil l ms) out = true)
+    (a b : Cmd) (hb : Before l a b) (hd : dep a b) (ha : a ∉ ms) (hbm : b ∉ ms) :
+    out.idxOf a < out.idxOf b :=
+  surgeryNil_order l ms out hf hb hd ha hbm
+
+/-- the predecessor → successor edges are needed: with only the staying edges (the merged nodes "simply removed")
+`Vgate | q0; CKgate | (q0,q1); Rgate(a) | q1; Rgate(−a) | q1; Vgate | q1` admits the order in which the last
+`Vgate` is emitted before the `CKgate` it does not commute with (seeded change C11-a2) -/
+def cSrc : List Cmd :=
+  [ { id := 0, cls := "Vgate", regs := [0] }, { id := 1, cls := "CKgate", regs := [0, 1] },
+    { id := 2, cls := "Rgate", regs := [1] }, { id := 3, cls := "Rgate", regs := [1] },
+    { id := 4, cls := "Vgate", regs := [1] } ]
+theorem merge_cancelled_without_bridging_counterexample :
+    forward ((dagEdges cSrc).filter fun e => !([cSrc[2]!, cSrc[3]!].contains e.1) && !([cSrc[2]!, cSrc[3]!].contains e.2))
+      [cSrc[4]!, cSrc[0]!, cSrc[1]!] = true ∧
+    forward (surgeryEdgesNil cSrc [cSrc[2]!, cSrc[3]!]) [cSrc[4]!, cSrc[0]!, cSrc[1]!] = false ∧
+    forward (surgeryEdgesNil cSrc [cSrc[2]!, cSrc[3]!]) [cSrc[0]!, cSrc[1]!, cSrc[4]!] = true ∧
+    checkMerge cSrc [cSrc[4]!, cSrc[0]!, cSrc[1]!] [⟨[2, 3], []⟩] [.keep 4, .keep 0, .keep 1, .block 0] = false := by
+  decide
 
 /-- the pre-fix surgery on `sMZgate | (4,1); Dgate | 4; MeasureFock | (1,3)`: the block emitted displacement
 gates, so the measurement got no edge from it and was sorted in front — rejected by the checker for either
@@ -315,6 +379,15 @@ example : (∀ a ∈ exApplied, ∀ m ∈ a.regs, m ∈ List.range 10) ∧ (∀ 
   intro a ha
   simp only [exApplied, List.mem_cons, List.not_mem_nil, or_false] at ha
   rcases ha with rfl | rfl | rfl <;> simp [Applied.hasRows]
+/-- with a daggered displacement: hypotheses of the affine theorems, and the vacuum satisfies the invariant -/
+def exAffine : List (Applied Rat) := exApplied ++ [{ g := .D (1/2) (-1/3), regs := [8], dagger := true }]
+example : (∀ a ∈ exAffine, ∀ m ∈ a.regs, m ∈ List.range 10) ∧ (∀ a ∈ exAffine, a.hasRows ∨ a.isD = true) ∧
+    NMInv (vacuum 2 : GS Rat) := by
+  refine ⟨by decide, ?_, vacuum_inv 2⟩
+  intro a ha
+  simp only [exAffine, exApplied, List.cons_append, List.nil_append, List.mem_cons, List.not_mem_nil, or_false] at ha
+  rcases ha with rfl | rfl | rfl | rfl <;> simp [Applied.hasRows, Applied.isD]
+
 /-- the surgery edges of the hybrid example: the Kerr gate is connected to the block before and after it -/
 example : forward (surgeryEdges mSrc [mSrc[4]!, mSrc[5]!] mOut[2]! [mOut[3]!])
     [mSrc[0]!, mSrc[1]!, mSrc[2]!, mSrc[3]!, mOut[2]!, mOut[3]!] = true := by decide
